@@ -442,7 +442,11 @@ func (h harness) execute(w *world, cfg runCfg) outcome {
 		rw.Count("refused_undecided", 1)
 	case len(missing) == 0 && len(exp.malformed) == 0 && !over:
 		// Nothing is missing, malformed, corrupt or oversized, and nothing failed.
-		viol("complete-result-refused", "the decorator refused (%v) a result whose %d references are all present and valid", err, len(exp.order))
+		// Completeness is not part of C13 as stated (the statement is
+		// soundness-only); observed, not a violation. The floor on
+		// results_returned makes a decorator that refuses everything
+		// inconclusive instead of "held".
+		rw.Count("observed_complete_result_refused", 1)
 	default:
 		// Only causes for which the caller must see NOT_FOUND ("the result
 		// does not exist").
@@ -474,7 +478,13 @@ func (h harness) execute(w *world, cfg runCfg) outcome {
 			rw.Count("refused_oversized", 1)
 		}
 		if code != codes.NotFound {
-			viol(cls+"-wrong-error-code", "cause %s must be reported as NOT_FOUND, got %v", cls, err)
+			if cls == "missing-object" {
+				viol(cls+"-wrong-error-code", "cause %s must be reported as NOT_FOUND, got %v", cls, err)
+			} else {
+				// The statement demands "an error" for malformed digests and
+				// oversized Trees, not a particular code: observed only.
+				rw.Count("observed_"+cls+"_reported_with_other_code", 1)
+			}
 		}
 	}
 	return outcome{ok: false, err: err, calls: len(calls), exp: exp}
